@@ -66,48 +66,60 @@ func TestVerifBounded_C06_Stitch(t *testing.T) {
 	if os.Getenv("VERIF_TIER") == "thorough" {
 		hi = 11
 	}
+	// all sets of up to two features over the wide coordinate range, and all sets of exactly three features (nested,
+	// chained, bridging) over a narrower one
+	type pass struct{ n, lo, hi int }
+	passes := []pass{{2, -2, hi}, {3, 0, 6}}
+	if os.Getenv("VERIF_TIER") == "thorough" {
+		passes[1] = pass{3, -1, 8}
+	}
 	for _, off := range []int{-3, 0, 2} {
-		verifFeatureSets(2, -2, hi, []feat.Orientation{feat.Forward}, func(fs []verifFeat) {
-			cases++
-			src := linear.NewSeq("s", alphabet.BytesToLetters([]byte(letters)), alphabet.DNA)
-			src.Offset = off
-			dst := linear.NewSeq("d", nil, alphabet.DNA)
-			set := verifSet{}
-			for _, f := range fs {
-				set = append(set, f)
-			}
-			if err := Stitch(dst, src, set); err != nil {
-				t.Fatalf("Stitch(%v) offset %d: %v", fs, off, err)
-			}
-			covered := map[int]bool{}
-			for _, f := range fs {
-				for p := f.s; p < f.e; p++ {
-					if p >= off && p < off+len(letters) {
-						covered[p] = true
+		for pi, ps := range passes {
+			verifFeatureSets(ps.n, ps.lo+off*pi, ps.hi+off*pi, []feat.Orientation{feat.Forward}, func(fs []verifFeat) {
+				if pi == 1 && len(fs) < 3 {
+					return
+				}
+				cases++
+				src := linear.NewSeq("s", alphabet.BytesToLetters([]byte(letters)), alphabet.DNA)
+				src.Offset = off
+				dst := linear.NewSeq("d", nil, alphabet.DNA)
+				set := verifSet{}
+				for _, f := range fs {
+					set = append(set, f)
+				}
+				if err := Stitch(dst, src, set); err != nil {
+					t.Fatalf("Stitch(%v) offset %d: %v", fs, off, err)
+				}
+				covered := map[int]bool{}
+				for _, f := range fs {
+					for p := f.s; p < f.e; p++ {
+						if p >= off && p < off+len(letters) {
+							covered[p] = true
+						}
 					}
 				}
-			}
-			var ps []int
-			for p := range covered {
-				ps = append(ps, p)
-			}
-			sort.Ints(ps)
-			want := ""
-			for _, p := range ps {
-				want += string(letters[p-off])
-			}
-			if len(want) > 0 {
-				nontrivial++
-			}
-			if got := string(alphabet.LettersToBytes(dst.Seq)); got != want {
-				t.Fatalf("Stitch(%v) of %q at offset %d = %q, want %q", fs, letters, off, got, want)
-			}
-			if string(alphabet.LettersToBytes(src.Seq)) != letters {
-				t.Fatalf("Stitch modified its source")
-			}
-		})
+				var ps []int
+				for p := range covered {
+					ps = append(ps, p)
+				}
+				sort.Ints(ps)
+				want := ""
+				for _, p := range ps {
+					want += string(letters[p-off])
+				}
+				if len(want) > 0 {
+					nontrivial++
+				}
+				if got := string(alphabet.LettersToBytes(dst.Seq)); got != want {
+					t.Fatalf("Stitch(%v) of %q at offset %d = %q, want %q", fs, letters, off, got, want)
+				}
+				if string(alphabet.LettersToBytes(src.Seq)) != letters {
+					t.Fatalf("Stitch modified its source")
+				}
+			})
+		}
 	}
-	fmt.Printf("BOUNDED name=C06.stitch cases=%d nontrivial=%d exhaustive=true domain=%q\n", cases, nontrivial, "sequence of 8 letters, offsets {-3,0,2}, all sets of 0..2 features with coordinates in -2..9 (11 thorough), any order and overlap")
+	fmt.Printf("BOUNDED name=C06.stitch cases=%d nontrivial=%d exhaustive=true domain=%q\n", cases, nontrivial, "sequence of 8 letters, offsets {-3,0,2}, all sets of 0..2 features with coordinates in -2..9 (11 thorough) and all sets of 3 features with coordinates in offset+0..6 (offset-1..8 thorough), any order, nesting and overlap")
 }
 
 // TestVerifBounded_C06_Compose: concatenation, in feature order, of each clipped segment; reverse features reverse-complemented.
